@@ -12,8 +12,12 @@ names are structured).  The theorems quantify over ALL lists of sessions and ALL
 (arbitrary md5 fields: equal md5 under different names, equal records saved twice, empty sketches, hashes
 up to 2^64-1 are all inside the quantifier).
 
-Which variant of the zip name search is the code's is decided by the translator
-(`Gen.zipNameConsultsBuffer`); theorems are stated for both variants explicitly.
+Three places of the code were repaired after this check found them wrong (D10 zip append name search,
+C10.2 SQLite seed, D11 LCA empty sketches).  The model keeps BOTH variants of each; the translator reports
+which one the source has (`Gen.zipNameConsultsBuffer`, `Gen.sqliteRecordsSeed`, `Gen.lcaYieldsEmpty`) and
+`source_has_the_repaired_variants` pins that.  The main theorems are about the repaired variants (the
+current source); the theorems named `old_variant_…` are regression theorems about the code before the
+repairs (what goes wrong there, kernel-checked).
 -/
 import SmVerif.Lemmas.StorageSql
 import SmVerif.Lemmas.StorageLca
@@ -75,56 +79,60 @@ theorem faithful_of_good (z : Zip) (placed : Placed) (saved : List Sig) (hg : Go
   simp only [zipManifest, hg.manifest]
   rfl
 
-/-- The code as found.  Any first (create) session, followed by any number of append sessions in each of
-    which no two DIFFERENT signatures share an md5, is stored faithfully.  (Signatures saved twice are
-    allowed anywhere: they collapse to one member, see `zip_exact_duplicate_counterexample`.) -/
-theorem zip_sessions_faithful_partial (s0 : List Sig) (rest : List (List Sig))
-    (happ : ∀ l ∈ rest, ∀ a ∈ l, ∀ b ∈ l, a.md5 = b.md5 → a = b) :
+/-- the source, as read by the translator on this run, has the repaired variant in all three places -/
+theorem source_has_the_repaired_variants :
+    Sm.Gen.zipNameConsultsBuffer = true ∧ Sm.Gen.sqliteRecordsSeed = true ∧ Sm.Gen.lcaYieldsEmpty = true := by
+  decide
+
+/-- MAIN STATEMENT for zip collections (current source: `_content_matches` also looks into `bufferzip`).
+    EVERY sequence of create-then-append sessions is stored faithfully: manifest rows in save order with
+    every column from the signature and the member actually holding it, no unlisted member, reload = the
+    saved signatures as a set, and = the saved list, in order, when no signature was saved twice. -/
+theorem zip_sessions_faithful (s0 : List Sig) (rest : List (List Sig)) :
     ∃ z, zipSessions none (s0 :: rest) = .ok (some z) ∧ Faithful z (s0 :: rest).flatten := by
   obtain ⟨z0, p0, h0, hg0, hm0⟩ := zipSession_create s0
-  obtain ⟨z, placed, h1, hg, hm⟩ := zipSessions_from_good rest z0 p0 hg0 happ
+  obtain ⟨z, placed, h1, hg, hm⟩ := zipSessions_from_good rest z0 p0 hg0
   refine ⟨z, by simp [zipSessions, h0, h1], faithful_of_good z placed _ hg ?_⟩
   rw [hm, hm0]; simp
 
-/-- a create session alone is always faithful: the name search sees the session's own writes -/
-theorem zip_create_session_faithful (l : List Sig) :
-    ∃ z, zipSessions none [l] = .ok (some z) ∧ Faithful z l := by
-  obtain ⟨z, h, hf⟩ := zip_sessions_faithful_partial l [] (by intro l hl; cases hl)
-  exact ⟨z, h, by simpa using hf⟩
+/-- `_generate_filename`: the `_n` search terminates (the fuel is never exhausted), returns a name for this
+    md5, "don't write" only when the very content is already there, "write" only on a name that is free in
+    everything the search can see (`rd`; `N` lists the names `rd` knows) -/
+theorem generate_filename_spec (rd : Name → Option Content) (N : List Name) (hN : ∀ n, rd n ≠ none → n ∈ N)
+    (fuel : Nat) (hfuel : N.length < fuel) (md5 : Nat) (c : Content) :
+    (∃ sfx, (genNameR rd fuel md5 c).1 = .sig ⟨md5, sfx⟩) ∧
+    ((genNameR rd fuel md5 c).2 = false → rd (genNameR rd fuel md5 c).1 = some c) ∧
+    ((genNameR rd fuel md5 c).2 = true → rd (genNameR rd fuel md5 c).1 = none) :=
+  genNameR_spec rd N hN fuel hfuel md5 c
 
-/-- With the candidate patch (`_content_matches` also looks into `bufferzip`) every sequence of sessions
-    is stored faithfully: the append-session hypothesis disappears. -/
-theorem zip_sessions_faithful_patched (s0 : List Sig) (rest : List (List Sig)) :
-    ∃ z, zipSessionsPatched none (s0 :: rest) = .ok (some z) ∧ Faithful z (s0 :: rest).flatten := by
-  obtain ⟨z0, p0, h0, hg0, hm0⟩ := zipSessionPatched_create s0
-  obtain ⟨z, placed, h1, hg, hm⟩ := zipSessionsPatched_from_good rest z0 p0 hg0
-  refine ⟨z, by simp [zipSessionsPatched, h0, h1], faithful_of_good z placed _ hg ?_⟩
-  rw [hm, hm0]; simp
-
-/-- `_generate_filename`: the `_n` search terminates (the fuel `len(zf)+1` is never exhausted), returns a
-    name for this md5, "don't write" only when the very content is already there, "write" only on a
-    name that is free in the zip it was handed -/
-theorem generate_filename_spec (zf : Zip) (md5 : Nat) (c : Content) :
-    (∃ sfx, (genName zf md5 c).1 = .sig ⟨md5, sfx⟩) ∧
-    ((genName zf md5 c).2 = false → read zf (genName zf md5 c).1 = some c) ∧
-    ((genName zf md5 c).2 = true → read zf (genName zf md5 c).1 = none) :=
-  genName_spec zf md5 c
+/-- the two instances the saver uses: writable zip (sees its own writes) and on-disk zip + buffer -/
+theorem generate_filename_instances (zf b : Zip) (md5 : Nat) (c : Content) :
+    ((genName zf md5 c).2 = true → read zf (genName zf md5 c).1 = none) ∧
+    ((genNameR (readBoth zf b) (zf.length + b.length + 1) md5 c).2 = true →
+      readBoth zf b (genNameR (readBoth zf b) (zf.length + b.length + 1) md5 c).1 = none) :=
+  ⟨(genName_spec zf md5 c).2.2, (genNameBoth_spec zf b md5 c).2.2⟩
 
 /-
-FULL STATEMENT (not proved / false):
+FULL STATEMENT (not proved / false): multiset equality
 
-  theorem zip_sessions_faithful (sessions : List (List Sig)) (h : sessions ≠ []) :
-      ∃ z, zipSessions none sessions = .ok (some z) ∧
-        (∃ out, zipLoad z = .ok out ∧ out.Perm sessions.flatten) ∧
-        (∃ rows, zipManifest z = some rows ∧ rows.length = (sigMembers z).length ∧ <rows ↔ members>)
+  ∀ sessions, ∃ out, zipLoad (result) = .ok out ∧ out.Perm sessions.flatten ∧ rows ↔ members bijection
 
-It fails in two ways, both reproduced on the real code by the `store` stream:
- (D10)  two signatures with EQUAL md5 and DIFFERENT content added in one APPEND session get the same member
-        name, because `_generate_filename` consults only the on-disk zip, not `bufferzip`; the second
-        overwrites the first in the buffer while the manifest lists both: the first signature is lost.
- (D24)  the same signature saved twice is one member but two manifest rows (`len()` = 2, one signature
-        returned), in create and append sessions alike, also under the patch.
+fails for a signature that is saved TWICE (finding C10.1): the storage is content-addressed, the second
+save returns the existing member, the manifest gets a second row: one member, two rows, one signature
+returned (`zip_exact_duplicate_counterexample`).  `zip_sessions_faithful` gives the set equality for all
+inputs and the list equality when nothing is saved twice.
 -/
+
+/-! ### regression theorems about the OLD variant (before commit 44244bd: name search blind to the buffer) -/
+
+/-- old variant: faithful only if no append session adds two DIFFERENT signatures with one md5 -/
+theorem old_variant_zip_sessions_faithful_partial (s0 : List Sig) (rest : List (List Sig))
+    (happ : ∀ l ∈ rest, ∀ a ∈ l, ∀ b ∈ l, a.md5 = b.md5 → a = b) :
+    ∃ z, zipSessionsOld none (s0 :: rest) = .ok (some z) ∧ Faithful z (s0 :: rest).flatten := by
+  obtain ⟨z0, p0, h0, hg0, hm0⟩ := zipSessionOld_create s0
+  obtain ⟨z, placed, h1, hg, hm⟩ := zipSessionsOld_from_good rest z0 p0 hg0 happ
+  refine ⟨z, by simp [zipSessionsOld, h0, h1], faithful_of_good z placed _ hg ?_⟩
+  rw [hm, hm0]; simp
 
 def sigA : Sig := { name := 1, filename := 0, md5 := 100, ksize := 21, mol := 0, num := 0, scaled := 1,
                     seed := 42, track := false, hashes := [(1, 1), (2, 1), (3, 1)] }
@@ -132,44 +140,69 @@ def sigB : Sig := { sigA with name := 2 }
 def sigC : Sig := { name := 3, filename := 0, md5 := 200, ksize := 21, mol := 0, num := 0, scaled := 1,
                     seed := 42, track := false, hashes := [(5, 1), (9223372036854775813, 1)] }
 
-/-- D10, kernel-checked: create a zip holding C; reopen it and add A and B (equal md5, different names).
+/-- D10 (fixed by 44244bd), kernel-checked on the OLD variant: create a zip holding C; reopen it and add A and B (equal md5, different names).
     The file then holds members for C and B only, reloading yields [C, B], A is lost — while the manifest
     has three rows, the one for A pointing at the member that holds B. -/
-theorem zip_append_same_md5_counterexample :
-    ∃ z, zipSessions none [[sigC], [sigA, sigB]] = .ok (some z) ∧
+theorem old_variant_zip_append_same_md5_counterexample :
+    ∃ z, zipSessionsOld none [[sigC], [sigA, sigB]] = .ok (some z) ∧
       zipLoad z = .ok [sigC, sigB] ∧
       zipManifest z = some [mkRow sigC (some (.sig ⟨200, none⟩)), mkRow sigA (some (.sig ⟨100, none⟩)),
                             mkRow sigB (some (.sig ⟨100, none⟩))] ∧
       read z (.sig ⟨100, none⟩) = some (.sigs [sigB]) ∧ (sigMembers z).length = 2 := by
   refine ⟨_, rfl, ?_, ?_, ?_, ?_⟩ <;> decide
 
-/-- hence the full statement is false for the code as found -/
-theorem zip_sessions_faithful_is_false :
-    ¬ ∀ sessions : List (List Sig), ∀ z, zipSessions none sessions = .ok (some z) →
+/-- hence the main statement was false for the old variant -/
+theorem old_variant_zip_sessions_faithful_is_false :
+    ¬ ∀ sessions : List (List Sig), ∀ z, zipSessionsOld none sessions = .ok (some z) →
         ∃ out, zipLoad z = .ok out ∧ ∀ s, s ∈ sessions.flatten → s ∈ out := by
   intro h
   obtain ⟨out, ho, hall⟩ := h [[sigC], [sigA, sigB]] _ rfl
   have hA := hall sigA (by decide)
-  have : zipLoad ((zipSessions none [[sigC], [sigA, sigB]]).rec (fun o => o.getD []) (fun _ => [])) = .ok [sigC, sigB] := by decide
+  have : zipLoad ((zipSessionsOld none [[sigC], [sigA, sigB]]).rec (fun o => o.getD []) (fun _ => [])) = .ok [sigC, sigB] := by decide
   have e : out = [sigC, sigB] := by
-    have h2 : zipLoad ((zipSessions none [[sigC], [sigA, sigB]]).rec (fun o => o.getD []) (fun _ => [])) = .ok out := ho
+    have h2 : zipLoad ((zipSessionsOld none [[sigC], [sigA, sigB]]).rec (fun o => o.getD []) (fun _ => [])) = .ok out := ho
     rw [this] at h2
     cases h2; rfl
   rw [e] at hA
   revert hA; decide
 
-/-- the same input under the candidate patch: B gets `<md5>_0`, all three come back, in order -/
-theorem zip_patched_fixes_counterexample :
-    ∃ z, zipSessionsPatched none [[sigC], [sigA, sigB]] = .ok (some z) ∧
+/-- the same input with the current source: B gets `<md5>_0`, all three come back, in order -/
+theorem zip_append_same_md5_regression :
+    ∃ z, zipSessions none [[sigC], [sigA, sigB]] = .ok (some z) ∧
       zipLoad z = .ok [sigC, sigA, sigB] ∧ (sigMembers z).length = 3 := by
   refine ⟨_, rfl, ?_, ?_⟩ <;> decide
 
-/-- D24, kernel-checked: the same signature saved twice in a create session is ONE member and TWO manifest
-    rows; one signature is returned (the multiset is not preserved, the set is) -/
+/-- C10.1, kernel-checked (current source): the same signature saved twice in a create session is ONE member
+    and TWO manifest rows; one signature is returned (the multiset is not preserved, the set is) -/
 theorem zip_exact_duplicate_counterexample :
     ∃ z, zipSessions none [[sigA, sigA]] = .ok (some z) ∧ zipLoad z = .ok [sigA] ∧
       (zipManifest z).map List.length = some 2 ∧ (sigMembers z).length = 1 := by
   refine ⟨_, rfl, ?_, ?_, ?_⟩ <;> decide
+
+/-- C10.4, kernel-checked: A and B (equal md5, different names) saved to a zip.  Reloading is faithful, but
+    the manifest REBUILT from the members (`get_manifest(rebuild=True)`, what `sourmash sig manifest`
+    does) lists A only: B lives in `<md5>.sig.gz_0`, a name that does not end in `.sig`/`.sig.gz` -/
+theorem zip_rebuilt_manifest_counterexample :
+    ∃ z, zipSessions none [[sigA, sigB]] = .ok (some z) ∧ zipLoad z = .ok [sigA, sigB] ∧
+      zipRebuildManifest z = [mkRow sigA (some (.sig ⟨100, none⟩))] := by
+  refine ⟨_, rfl, ?_, ?_⟩ <;> decide
+
+/-- ... while for signatures with pairwise different md5 every member is `<md5>.sig.gz` (the rebuilt
+    manifest of the example is the stored one) -/
+theorem zip_rebuilt_manifest_example :
+    ∃ z, zipSessions none [[sigA], [sigC]] = .ok (some z) ∧
+      zipRebuildManifest z = [mkRow sigA (some (.sig ⟨100, none⟩)), mkRow sigC (some (.sig ⟨200, none⟩))] ∧
+      zipManifest z = some (zipRebuildManifest z) := by
+  refine ⟨_, rfl, ?_, ?_⟩ <;> decide
+
+/-- C10.5, kernel-checked: a standalone manifest in SQLite format over that zip keeps one row per
+    (location, md5); reloading through it returns A only, through a CSV manifest both -/
+theorem sql_manifest_counterexample :
+    let rows := [mkRow sigA (some (.other 0)), mkRow sigB (some (.other 0)), mkRow sigC (some (.other 0))]
+    sqlManifestKeep rows = [mkRow sigA (some (.other 0)), mkRow sigC (some (.other 0))] ∧
+    standaloneLoad (sqlManifestKeep rows) [sigA, sigB, sigC] = [sigA, sigC] ∧
+    standaloneLoad rows [sigA, sigB, sigC] = [sigA, sigB, sigC] := by
+  refine ⟨?_, ?_, ?_⟩ <;> decide
 
 /-! ## SBT leaves: a freshly created zip, same name search -/
 
@@ -210,7 +243,7 @@ theorem sbtLoad_good (z : Zip) (placed : Placed) (hg : Good z placed) (hnd : (pl
     member, two rows) -/
 theorem sbt_leaves_roundtrip_partial (sigs : List Sig) (hnd : sigs.Nodup) : sbtLoad (sbtSave sigs) = .ok sigs := by
   obtain ⟨ho, inv⟩ := sinv_open_none
-  obtain ⟨new, inv', hmap⟩ := sinv_fold sigs _ [] [] inv (Or.inl rfl)
+  obtain ⟨new, inv', hmap⟩ := sinv_fold sigs _ [] [] inv
   have hg := good_close _ _ _ inv'
   simp only [List.nil_append, List.map_nil] at hg hmap
   have := sbtLoad_good _ new hg (by rw [hmap]; exact hnd)
@@ -267,12 +300,12 @@ theorem sqlite_convert_order (x y : Nat) (hx : x < 2 ^ 64) (hy : y < 2 ^ 64) :
   ⟨convert_mono_low x y, convert_mono_high x y, fun h1 h2 => convert_cross x y h1 h2 hy,
    convert_nonneg_iff x hx, convert_injective x y hx hy⟩
 
-/-- SqliteIndex over any sequence of create-then-append sessions: the tables hold exactly the signatures
-    the documented restriction admits (`sqlOk`: flat, scaled, at the scaled value of the first one
-    accepted), every other `add` is refused with ValueError (flag `false`) and leaves the tables
-    unchanged; reloading yields the accepted signatures in order, every field intact except that the seed
-    is whatever was recorded; the manifest has one correct row per accepted signature (location None). -/
-theorem sqlite_roundtrip (rs : Bool) (sessions : List (List Sig))
+/-- the general statement, for either variant of the seed column (`rs` = is the sketch's seed recorded?):
+    the tables hold exactly the signatures the documented restriction admits (`sqlOk`: flat, scaled, at the
+    scaled value of the first one accepted), every other `add` is refused with ValueError (flag `false`)
+    and leaves the tables unchanged; reloading yields the accepted signatures in order, every field intact
+    except that the seed is whatever was recorded; one correct manifest row per accepted signature -/
+theorem sqlite_roundtrip_any_variant (rs : Bool) (sessions : List (List Sig))
     (hw : ∀ s ∈ sessions.flatten, s.num = 0 → s.track = false →
       FlatSorted s.hashes ∧ ∀ h ∈ s.hashes, h.1 < 2 ^ 64) :
     ∃ db, sqlSessions rs SqlDb.empty sessions = .ok (db, (sqlSpecSessions [] sessions).2) ∧
@@ -288,13 +321,18 @@ theorem sqlite_roundtrip (rs : Bool) (sessions : List (List Sig))
   · obtain ⟨h1, h2⟩ := hw s hmem hn ht
     exact ⟨hn, ht, h1, h2⟩
 
-/-- with the seed recorded, what comes back is exactly what was accepted -/
-theorem sqlite_roundtrip_exact_when_seed_recorded (sessions : List (List Sig))
+/-- MAIN STATEMENT for SQLite (current source: the seed is recorded).  Over any sequence of
+    create-then-append sessions: exactly the admitted signatures are stored, all others are refused
+    loudly, and reloading yields the accepted signatures THEMSELVES, in order -- every field including the
+    seed, hashes up to 2^64-1 through the signed mapping -- with one correct manifest row each. -/
+theorem sqlite_roundtrip (sessions : List (List Sig))
     (hw : ∀ s ∈ sessions.flatten, s.num = 0 → s.track = false →
       FlatSorted s.hashes ∧ ∀ h ∈ s.hashes, h.1 < 2 ^ 64) :
-    ∃ db fl, sqlSessions true SqlDb.empty sessions = .ok (db, fl) ∧ sqlLoad db = (sqlSpecSessions [] sessions).1 := by
-  obtain ⟨db, h1, h2, _⟩ := sqlite_roundtrip true sessions hw
-  refine ⟨db, _, h1, ?_⟩
+    ∃ db, sqlSessions true SqlDb.empty sessions = .ok (db, (sqlSpecSessions [] sessions).2) ∧
+      sqlLoad db = (sqlSpecSessions [] sessions).1 ∧
+      sqlManifest db = (sqlSpecSessions [] sessions).1.map (mkRow · none) := by
+  obtain ⟨db, h1, h2, h3⟩ := sqlite_roundtrip_any_variant true sessions hw
+  refine ⟨db, h1, ?_, h3⟩
   rw [h2]
   have : ∀ l : List Sig, l.map (sqlNorm true) = l := by
     intro l; induction l with
@@ -310,13 +348,14 @@ theorem sqlite_refusal_spec (acc : List Sig) (ss : Sig) :
   | nil => simp
   | cons g t => simp [and_assoc]
 
-/-
-FULL STATEMENT (not proved / false for the code as found):
-  sqlite_roundtrip with `sqlLoad db = (sqlSpecSessions [] sessions).1` for the code's `rs = Gen.sqliteRecordsSeed = false`.
-The sketch's seed is not in the manifest row, `_insert_row` records 42: a sketch with another seed is
-handed back as a seed-42 sketch (finding D25).
--/
-theorem sqlite_seed_counterexample :
+/-- regression, current source: a seed-43 sketch comes back as a seed-43 sketch -/
+theorem sqlite_seed_regression :
+    ∃ db fl, sqlSessions true SqlDb.empty [[{ sigA with seed := 43 }]] = .ok (db, fl) ∧
+      sqlLoad db = [{ sigA with seed := 43 }] := by
+  refine ⟨_, _, rfl, ?_⟩; decide
+
+/-- C10.2 (fixed by 005b230), kernel-checked on the OLD variant: the row carried no seed, 42 was recorded -/
+theorem old_variant_sqlite_seed_counterexample :
     ∃ db fl, sqlSessions false SqlDb.empty [[{ sigA with seed := 43 }]] = .ok (db, fl) ∧ fl = [[true]] ∧
       sqlLoad db = [sigA] ∧ sigA ≠ { sigA with seed := 43 } := by
   refine ⟨_, _, rfl, ?_, ?_, ?_⟩ <;> decide
@@ -360,32 +399,84 @@ def sigE : Sig := { name := 4, filename := 0, md5 := 300, ksize := 21, mol := 0,
 def sigG : Sig := { name := 5, filename := 0, md5 := 400, ksize := 21, mol := 0, num := 0, scaled := 1,
                     seed := 42, track := false, hashes := [(9223372036854775815, 1)] }
 
-/-- LCA databases, every list of inserts.  `lcaSpec` lists the accepted inserts with their idx (an insert is
-    accepted iff `lcaOk`: same k and molecule, scaled sketch no coarser than the database, new name; every
-    other insert raises ValueError).  Then:
-    * `len` counts every accepted insert;
-    * everything `signatures()` returns is an accepted signature that is NON-EMPTY at the database's
-      scaled, under its own name, flat (abundance 1), with exactly the hash values the database keeps
-      (`lcaKept`: the downsampled sketch), at the database's k / molecule / scaled;
-    * every accepted signature that is non-empty at the database's scaled is returned;
-    * (D11, in general) an accepted signature that is EMPTY at the database's scaled is never returned. -/
-theorem lca_roundtrip_partial (k sc M mol : Nat) (l : List Sig) :
+/-- what an LCA database hands back for an accepted signature: its name, flat, at the database's k /
+    molecule / scaled, with exactly the hash values the database keeps (`lcaKept`: the downsampled sketch,
+    possibly empty) -/
+def LcaImage (k sc M mol : Nat) (s : Sig) (s' : Sig) : Prop :=
+  s'.name = s.name ∧ (∀ x, x ∈ s'.hashes.map (·.1) ↔ x ∈ lcaKept M s) ∧ (∀ p ∈ s'.hashes, p.2 = 1) ∧
+  s'.track = false ∧ s'.num = 0 ∧ s'.scaled = sc ∧ s'.ksize = k ∧ s'.mol = mol
+
+/-- MAIN STATEMENT for LCA databases (current source: `_signatures` creates an entry for every idx).
+    For every list of inserts: an insert is accepted iff `lcaOk` (same k and molecule, a scaled sketch no
+    coarser than the database, a name not yet present; every other insert raises ValueError); `len` counts
+    the accepted inserts; and `signatures()` is, up to order, exactly one `LcaImage` per accepted insert --
+    including the sketches that are empty at the database's scaled. -/
+theorem lca_roundtrip (k sc M mol : Nat) (l : List Sig) :
     let db := (lcaInserts (LcaDb.new k sc M mol) l).1
     let acc := (lcaSpec (LcaDb.new k sc M mol) l).1
     (lcaInserts (LcaDb.new k sc M mol) l).2 = (lcaSpec (LcaDb.new k sc M mol) l).2 ∧
     db.len = acc.length ∧
-    (∀ s' ∈ db.signatures, ∃ e ∈ acc, lcaKept M e.2 ≠ [] ∧ s'.name = e.2.name ∧
-      (∀ x, x ∈ s'.hashes.map (·.1) ↔ x ∈ lcaKept M e.2) ∧ (∀ p ∈ s'.hashes, p.2 = 1) ∧
-      s'.track = false ∧ s'.num = 0 ∧ s'.scaled = sc ∧ s'.ksize = k ∧ s'.mol = mol) ∧
-    (∀ e ∈ acc, lcaKept M e.2 ≠ [] → ∃ s' ∈ db.signatures, s'.name = e.2.name) ∧
-    (∀ e ∈ acc, lcaKept M e.2 = [] → ∀ s' ∈ db.signatures, s'.name ≠ e.2.name) := by
+    ∃ imgs : List Sig, (db.signatures true).Perm imgs ∧ imgs.length = acc.length ∧
+      ∀ i (h1 : i < imgs.length) (h2 : i < acc.length), LcaImage k sc M mol (acc[i]).2 (imgs[i]) := by
   intro db acc
   obtain ⟨inv, hfl, hM, hk, hmol, hsc⟩ := lcaInserts_inv l (LcaDb.new k sc M mol) [] (lcaInv_new k sc M mol)
   simp only [List.nil_append] at inv
   have hM' : db.maxHash = M := hM
-  have hk' : db.ksize = k := hk
-  have hmol' : db.mol = mol := hmol
-  have hsc' : db.scaled = sc := hsc
+  refine ⟨hfl, inv.len, acc.map (fun e => lcaSigOf db e.1 e.2.name), signatures_perm db acc inv, by simp, ?_⟩
+  intro i h1 h2
+  simp only [List.getElem_map]
+  have he : acc[i] ∈ acc := List.getElem_mem h2
+  refine ⟨rfl, ?_, foldl_insertHash_abund _ [] (by intro p hp; cases hp), rfl, rfl, hsc, hk, hmol⟩
+  intro x
+  rw [lcaSigOf_hashes, inv.owns]
+  constructor
+  · rintro ⟨e', he', e1, e2⟩
+    have : e' = acc[i] := inj_of_nodup_map acc (·.1) inv.idxNodup e' acc[i] he' he e1
+    subst this
+    rw [hM'] at e2; exact e2
+  · intro hx
+    exact ⟨acc[i], he, rfl, by rw [hM']; exact hx⟩
+
+/-- the acceptance test of `lcaSpec`, spelled out -/
+theorem lca_refusal_spec (db : LcaDb) (ss : Sig) :
+    (∃ db', db.insert ss = .ok db') ↔
+      ss.ksize = db.ksize ∧ ss.mol = db.mol ∧ ss.num = 0 ∧ ss.scaled ≠ 0 ∧ ss.scaled ≤ db.scaled ∧
+        ss.name ∉ db.identToName.map (·.1) := by
+  constructor
+  · rintro ⟨db', h⟩
+    cases hok : lcaOk db ss with
+    | false => rw [lca_insert_err db ss hok] at h; cases h
+    | true =>
+      simp only [lcaOk, Bool.and_eq_true, decide_eq_true_eq, Bool.not_eq_eq_eq_not, Bool.not_true] at hok
+      obtain ⟨⟨⟨⟨⟨h1, h2⟩, h3⟩, h4⟩, h5⟩, h6⟩ := hok
+      exact ⟨h1, h2, h3, h4, h5, by simpa using h6⟩
+  · rintro ⟨h1, h2, h3, h4, h5, h6⟩
+    refine ⟨_, lca_insert_ok db ss ?_⟩
+    simp only [lcaOk, Bool.and_eq_true, decide_eq_true_eq, Bool.not_eq_eq_eq_not, Bool.not_true]
+    exact ⟨⟨⟨⟨⟨h1, h2⟩, h3⟩, h4⟩, h5⟩, by simpa using h6⟩
+
+/-
+Not proved in `lca_roundtrip` (covered by the `store` stream only): that the hash list handed back is in
+ascending order (only its set of values and the abundances are), and the `_next_index` recomputation on
+JSON load (`saveLoad`).  The loaded md5 is a function of (k, hashes) and is recomputed by the harness.
+-/
+
+/-! ### regression theorems about the OLD variant of `_signatures` (before commit 74325d9) -/
+
+/-- old variant, every list of inserts: what is returned is an accepted signature that is NON-EMPTY at the
+    database's scaled; every such signature is returned; an accepted signature that is EMPTY at the
+    database's scaled is never returned (D11) although `len` counts it -/
+theorem old_variant_lca_roundtrip_partial (k sc M mol : Nat) (l : List Sig) :
+    let db := (lcaInserts (LcaDb.new k sc M mol) l).1
+    let acc := (lcaSpec (LcaDb.new k sc M mol) l).1
+    db.len = acc.length ∧
+    (∀ s' ∈ db.signatures false, ∃ e ∈ acc, lcaKept M e.2 ≠ [] ∧ LcaImage k sc M mol e.2 s') ∧
+    (∀ e ∈ acc, lcaKept M e.2 ≠ [] → ∃ s' ∈ db.signatures false, s'.name = e.2.name) ∧
+    (∀ e ∈ acc, lcaKept M e.2 = [] → ∀ s' ∈ db.signatures false, s'.name ≠ e.2.name) := by
+  intro db acc
+  obtain ⟨inv, hfl, hM, hk, hmol, hsc⟩ := lcaInserts_inv l (LcaDb.new k sc M mol) [] (lcaInv_new k sc M mol)
+  simp only [List.nil_append] at inv
+  have hM' : db.maxHash = M := hM
   have hown : ∀ e ∈ acc, (∃ h, Owns db.hashvalToIdx h e.1) ↔ lcaKept M e.2 ≠ [] := by
     intro e he
     constructor
@@ -400,54 +491,61 @@ theorem lca_roundtrip_partial (k sc M mol : Nat) (l : List Sig) :
       | nil => exact absurd hkept hne
       | cons h t =>
         exact ⟨h, (inv.owns h e.1).2 ⟨e, he, rfl, by rw [hM', hkept]; simp⟩⟩
-  refine ⟨hfl, inv.len, ?_, ?_, ?_⟩
+  have hmem : ∀ s', s' ∈ db.signatures false ↔
+      ∃ e ∈ acc, (∃ h, Owns db.hashvalToIdx h e.1) ∧ s' = lcaSigOf db e.1 e.2.name := by
+    intro s'
+    rw [mem_signatures false db acc inv s']
+    constructor
+    · rintro ⟨e, he, (h | h), hs⟩
+      · exact ⟨e, he, h, hs⟩
+      · cases h
+    · rintro ⟨e, he, h, hs⟩
+      exact ⟨e, he, Or.inl h, hs⟩
+  refine ⟨inv.len, ?_, ?_, ?_⟩
   · intro s' hs'
-    obtain ⟨e, he, hex, rfl⟩ := (mem_signatures db acc inv s').1 hs'
-    refine ⟨e, he, (hown e he).1 hex, rfl, ?_, ?_, rfl, rfl, hsc', hk', hmol'⟩
-    · intro x
-      rw [lcaSigOf_hashes, inv.owns]
-      constructor
-      · rintro ⟨e', he', e1, e2⟩
-        have : e' = e := inj_of_nodup_map acc (·.1) inv.idxNodup e' e he' he e1
-        subst this
-        rw [hM'] at e2; exact e2
-      · intro hx
-        exact ⟨e, he, rfl, by rw [hM']; exact hx⟩
-    · exact foldl_insertHash_abund _ [] (by intro p hp; cases hp)
+    obtain ⟨e, he, hex, rfl⟩ := (hmem s').1 hs'
+    refine ⟨e, he, (hown e he).1 hex, rfl, ?_, foldl_insertHash_abund _ [] (by intro p hp; cases hp),
+      rfl, rfl, hsc, hk, hmol⟩
+    intro x
+    rw [lcaSigOf_hashes, inv.owns]
+    constructor
+    · rintro ⟨e', he', e1, e2⟩
+      have : e' = e := inj_of_nodup_map acc (·.1) inv.idxNodup e' e he' he e1
+      subst this
+      rw [hM'] at e2; exact e2
+    · intro hx
+      exact ⟨e, he, rfl, by rw [hM']; exact hx⟩
   · intro e he hne
-    exact ⟨lcaSigOf db e.1 e.2.name, (mem_signatures db acc inv _).2 ⟨e, he, (hown e he).2 hne, rfl⟩, rfl⟩
+    exact ⟨lcaSigOf db e.1 e.2.name, (hmem _).2 ⟨e, he, (hown e he).2 hne, rfl⟩, rfl⟩
   · intro e he hnil s' hs' hname
-    obtain ⟨e', he', hex, rfl⟩ := (mem_signatures db acc inv s').1 hs'
+    obtain ⟨e', he', hex, rfl⟩ := (hmem s').1 hs'
     have : e' = e := inj_of_nodup_map acc (·.2.name) inv.nameNodup e' e he' he hname
     subst this
     exact (hown e' he').1 hex hnil
 
-/-
-FULL STATEMENT (not proved / false):
-  lca_roundtrip : the multiset `signatures()` returns = { flatten (downsample s db.scaled) | s accepted }.
-D11: a sketch that is empty at the database's scaled owns no key of `_hashval_to_idx`, so `_signatures`
-never creates it, although the insert succeeded and `len()` counts it (last clause of
-`lca_roundtrip_partial`; concrete instance below).  Not proved in `lca_roundtrip_partial`: that the hash
-list handed back is in ascending order (only its set of values and the abundances), that no signature is
-returned twice, and the `_next_index` recomputation on JSON load (`saveLoad`); all three are covered by
-the `store` stream only.
--/
-/-- D11, kernel-checked: into a scaled=2 database (max_hash 2^63) insert A (3 hashes), E (empty) and G
-    (one hash above 2^63): all three inserts succeed, `len` is 3, and `signatures()` yields A only -/
-theorem lca_empty_sketch_vanishes_counterexample :
+/-- D11 (fixed by 74325d9), kernel-checked on the OLD variant: into a scaled=2 database (max_hash 2^63) insert
+    A (3 hashes), E (empty) and G (one hash above 2^63): all three inserts succeed, `len` is 3, and
+    `signatures()` yields A only -/
+theorem old_variant_lca_empty_sketch_vanishes_counterexample :
     ((lcaInserts (LcaDb.new 21 2 9223372036854775808 0) [sigA, sigE, sigG]).2 = [true, true, true]) ∧
     ((lcaInserts (LcaDb.new 21 2 9223372036854775808 0) [sigA, sigE, sigG]).1.saveLoad.len = 3) ∧
-    ((lcaInserts (LcaDb.new 21 2 9223372036854775808 0) [sigA, sigE, sigG]).1.saveLoad.signatures.map (·.name) = [1]) := by
+    (((lcaInserts (LcaDb.new 21 2 9223372036854775808 0) [sigA, sigE, sigG]).1.saveLoad.signatures false).map (·.name) = [1]) := by
   refine ⟨?_, ?_, ?_⟩ <;> decide
 
-/-- lca_roundtrip_partial, the instance that is checked in the kernel (non-empty sketches come back
-    flattened and downsampled; refusals: other k, num sketch, name already present) -/
-theorem lca_roundtrip_partial_example :
+/-- the same input with the current source: A, E and G all come back, E and G as empty sketches -/
+theorem lca_empty_sketch_regression :
+    ((lcaInserts (LcaDb.new 21 2 9223372036854775808 0) [sigA, sigE, sigG]).1.saveLoad.signatures true).map
+      (fun s => (s.name, s.hashes)) = [(1, [(1, 1), (2, 1), (3, 1)]), (4, []), (5, [])] := by
+  decide
+
+/-- an instance with refusals (other k, num sketch, name already present), abundances flattened and a
+    sketch downsampled, checked in the kernel -/
+theorem lca_roundtrip_example :
     let r := lcaInserts (LcaDb.new 21 2 9223372036854775808 0)
       [sigC, { sigA with track := true, hashes := [(1, 5), (2, 7), (3, 9)] }, sigB, { sigB with md5 := 7 },
        { sigA with name := 9, ksize := 31 }, { sigA with name := 8, num := 5, scaled := 0 }]
     r.2 = [true, true, true, false, false, false] ∧
-    r.1.saveLoad.signatures.map (fun s => (s.name, s.hashes)) =
+    (r.1.saveLoad.signatures true).map (fun s => (s.name, s.hashes)) =
       [(3, [(5, 1)]), (1, [(1, 1), (2, 1), (3, 1)]), (2, [(1, 1), (2, 1), (3, 1)])] := by
   refine ⟨?_, ?_⟩ <;> decide
 
@@ -513,15 +611,18 @@ theorem save_choice :
 
 -- the hypotheses of `zip_sessions_faithful_partial` are satisfiable by a non-trivial history with equal
 -- md5 under different names (in the create session and across sessions) and a duplicate
-example : ∃ z, zipSessions none [[sigA, sigB, sigA], [sigC, sigA], [sigB]] = .ok (some z) ∧
+example : ∃ z, zipSessionsOld none [[sigA, sigB, sigA], [sigC, sigA], [sigB]] = .ok (some z) ∧
     Faithful z [sigA, sigB, sigA, sigC, sigA, sigB] :=
-  zip_sessions_faithful_partial [sigA, sigB, sigA] [[sigC, sigA], [sigB]] (by decide)
+  old_variant_zip_sessions_faithful_partial [sigA, sigB, sigA] [[sigC, sigA], [sigB]] (by decide)
 
-example : zipLoad ((zipSessions none [[sigA, sigB], [sigC]]).rec (fun o => o.getD []) (fun _ => [])) =
+example : zipLoad ((zipSessions none [[sigA, sigB], [sigC, sigB, { sigA with name := 7 }]]).rec (fun o => o.getD []) (fun _ => [])) =
+    .ok [sigA, sigB, sigC, { sigA with name := 7 }] := by decide
+
+example : zipLoad ((zipSessionsOld none [[sigA, sigB], [sigC]]).rec (fun o => o.getD []) (fun _ => [])) =
     .ok [sigA, sigB, sigC] := by decide
 
 -- SQLite: a session history with refusals and hashes above 2^63
-example : ∃ db, sqlSessions false SqlDb.empty [[sigC, { sigA with num := 5 }], [sigA, { sigB with scaled := 2 }]] =
+example : ∃ db, sqlSessions true SqlDb.empty [[sigC, { sigA with num := 5 }], [sigA, { sigB with scaled := 2 }]] =
       .ok (db, [[true, false], [true, false]]) ∧ sqlLoad db = [sigC, sigA] := by
   refine ⟨_, rfl, ?_⟩; decide
 
